@@ -204,3 +204,21 @@ Example index_example_has_three_pointers :
           (file_lines rec2 [[35; 35; 195; 169; 10]; [35; 67; 72; 82; 79; 77; 10]] ex_file)
   with Ok ps => length ps | Err _ => O end = 3%nat.
 Proof. vm_compute. reflexivity. Qed.
+
+(* ---- code-level tie (docs/py2coq.md): the BODY of GVFIndex.iterate_pointer -- a generator; `yield p` appends to the
+        returned list -- translated from /repo's current source by harness/translate/py2coq.py into
+        coq/Gen/Py_GVFIndex.v on every run (byte offsets accumulated over the byte lines, strict UTF-8 decoding, comment
+        lines skipped but counted, one pointer per run of equal transcript ids, `pointer.end` extended, the last pointer
+        yielded after the loop, parser / decoder errors propagated), is extensionally equal to the model function for
+        EVERY parser P and key function. ---- *)
+From MoPep Require Gen.Py_GVFIndex.
+From MoPep Require Import Proofs.Py2CoqGvfProofs.
+
+Theorem code_iterate_pointer_translated : Py_GVFIndex.py_iterate_pointer_untranslated = false.
+Proof. vm_compute. reflexivity. Qed.
+Print Assumptions code_iterate_pointer_translated.
+
+Theorem code_iterate_pointer_is_model : forall R P key_of ic lines,
+  Py_GVFIndex.py_iterate_pointer R P key_of ic lines = iterate_pointer R P key_of ic lines.
+Proof. exact code_iterate_pointer_is_model_l. Qed.
+Print Assumptions code_iterate_pointer_is_model.
